@@ -4,6 +4,17 @@
     the counter it increments and whether the loop tests `all_ids`;
   * `all_ids_filter`: which elements populate `Cache::all_ids` in convert_doc
     (None = every element with a non-empty id; Some tags = only these element kinds).
+
+Gen/CollectTables.v: shape of the collection loops of usvg::tree (source-derived):
+
+  * `paint_loop_arms`: the arms of the `match node` in `loop_over_paint_servers`, in order: node kind, the arm's
+    guard (`if ..` text, "" = none) and what the arm does (recursion / which Path fields are pushed / nothing);
+    `paint_loop_subroots`: the unconditional `node.subroots(|subroot| loop_over_paint_servers(subroot, f))`;
+  * `collector_guards`: every `if` condition inside Group::collect_clip_paths / collect_masks / collect_filters,
+    Tree::collect_paint_servers and loop_over_paint_servers (whitespace-normalised).
+  Model/Tree.v's `node_paints` / `walk_*` are the hand model of these loops; Proofs/Collect.v proves by
+  `reflexivity` that the tables are the ones the model was written for, so a new guard (e.g. skipping hidden
+  paths) or a dropped arm changes a proof obligation.
 """
 import re
 
@@ -70,3 +81,129 @@ def generate(api):
         api.ok('tables', 'ids', kinds=len(kinds), filter=flt)
     except (api.Unsupported, OSError, ValueError, IndexError) as e:
         api.broken('table', 'converter.gen_ids', PROPS, e)
+    generate_collect(api)
+
+
+TREE_REL = 'crates/usvg/src/tree/mod.rs'
+
+
+def _fn_body(src, header_re):
+    """text between the braces of the first fn whose header matches"""
+    m = re.search(header_re, src)
+    if not m:
+        return None
+    i = src.index('{', m.end() - 1)
+    depth, j = 0, i
+    while j < len(src):
+        if src[j] == '{':
+            depth += 1
+        elif src[j] == '}':
+            depth -= 1
+            if depth == 0:
+                return src[i + 1:j]
+        j += 1
+    return None
+
+
+def _norm(t):
+    return re.sub(r"\s+\.", ".", re.sub(r"\s+", " ", t)).strip()
+
+
+def _strip_comments(t):
+    return re.sub(r"//[^\n]*", "", t)
+
+
+def _guards(body):
+    return [_norm(g) for g in re.findall(r"\bif\s+(.*?)\s*\{", _strip_comments(body), re.S)]
+
+
+def _coq_str(t):
+    return '"%s"' % t.replace('"', '""')
+
+
+def generate_collect(api):
+    try:
+        src = api.rd(TREE_REL)
+        loop = _fn_body(src, r"fn\s+loop_over_paint_servers\b[^{]*\{")
+        if loop is None:
+            raise api.Unsupported("fn loop_over_paint_servers not found")
+        loop = _strip_comments(loop)
+        m = re.search(r"for\s+node\s+in\s+&parent\.children\s*\{", loop)
+        if not m:
+            raise api.Unsupported("loop_over_paint_servers: `for node in &parent.children` not found")
+        forb = _fn_body(loop[m.start():], r"for\s+node\s+in\s+&parent\.children\s*\{")
+        mm = re.search(r"match\s+node\s*\{", forb)
+        if not mm:
+            raise api.Unsupported("loop_over_paint_servers: `match node` not found")
+        mbody = _fn_body(forb[mm.start():], r"match\s+node\s*\{")
+        rest = forb[forb.index("{", mm.start()) + len(mbody) + 2:]
+        arms = []
+        pos = 0
+        arm_re = re.compile(r"Node::(\w+)\(([^)]*)\)\s*(?:if\s+(.*?))?\s*=>\s*", re.S)
+        while True:
+            a = arm_re.search(mbody, pos)
+            if not a:
+                break
+            kind, guard = a.group(1), _norm(a.group(3) or "")
+            k = a.end()
+            if mbody[k] == '{':
+                depth, j = 0, k
+                while True:
+                    if mbody[j] == '{':
+                        depth += 1
+                    elif mbody[j] == '}':
+                        depth -= 1
+                        if depth == 0:
+                            break
+                    j += 1
+                act = mbody[k + 1:j]
+                pos = j + 1
+            else:
+                depth, j = 0, k
+                while j < len(mbody) and not (mbody[j] == ',' and depth == 0):
+                    depth += {'(': 1, ')': -1}.get(mbody[j], 0)
+                    j += 1
+                act = mbody[k:j]
+                pos = j + 1
+            act_n = _norm(act)
+            if act_n == "":
+                what = "ArmSkip"
+            elif re.fullmatch(r"loop_over_paint_servers\(\w+, f\)", act_n):
+                what = "ArmRec"
+            else:
+                pushes = re.findall(r"push\(\s*(\w+)\.(\w+)\.as_ref\(\)\.map\(\|\w+\| &\w+\.paint\), f\);", act_n)
+                left = re.sub(r"push\(\s*\w+\.\w+\.as_ref\(\)\.map\(\|\w+\| &\w+\.paint\), f\);", "", act_n).strip()
+                if not pushes or left:
+                    raise api.Unsupported("loop_over_paint_servers: arm Node::%s does something the translator does not understand: %s" % (kind, act_n[:80]))
+                what = "ArmPush [%s]" % "; ".join(_coq_str(f) for _, f in pushes)
+            arms.append('(%s, %s, %s)' % (_coq_str(kind), _coq_str(guard), what))
+        if not arms:
+            raise api.Unsupported("loop_over_paint_servers: no match arms found")
+        sub = _norm(rest)
+        subroots = bool(re.fullmatch(r"node\.subroots\(\|subroot\| loop_over_paint_servers\(subroot, f\)\);", sub))
+        if not subroots and sub:
+            raise api.Unsupported("loop_over_paint_servers: unexpected code after the match: %s" % sub[:80])
+        fns = [('collect_clip_paths', r"fn\s+collect_clip_paths\b[^{]*\{"),
+               ('collect_masks', r"fn\s+collect_masks\b[^{]*\{"),
+               ('collect_filters', r"fn\s+collect_filters\b[^{]*\{"),
+               ('collect_paint_servers', r"fn\s+collect_paint_servers\b[^{]*\{"),
+               ('loop_over_paint_servers', r"fn\s+loop_over_paint_servers\b[^{]*\{")]
+        rows = []
+        for name, hre in fns:
+            b = _fn_body(src, hre)
+            if b is None:
+                raise api.Unsupported("fn %s not found in %s" % (name, TREE_REL))
+            rows.append('(%s, [%s])' % (_coq_str(name), "; ".join(_coq_str(g) for g in _guards(b))))
+        out = [api.HEADER, "From Coq Require Import String List.\nImport ListNotations.\nLocal Open Scope string_scope.\n",
+               "(* %s :: loop_over_paint_servers *)" % TREE_REL,
+               "Inductive parm := ArmRec | ArmPush (fields : list string) | ArmSkip.",
+               "(* (Node kind, guard of the arm (\"\" = none), action) *)",
+               "Definition paint_loop_arms : list (string * string * parm) :=\n  [%s]." % ";\n   ".join(arms),
+               "(* `node.subroots(|subroot| loop_over_paint_servers(subroot, f))` follows the match, unconditionally *)",
+               "Definition paint_loop_subroots : bool := %s." % ('true' if subroots else 'false'),
+               "(* every `if` condition of the collection loops *)",
+               "Definition collector_guards : list (string * list string) :=\n  [%s].\n" % ";\n   ".join(rows)]
+        api.write_gen('CollectTables.v', "\n".join(out))
+        api.ok('tables', 'collect', arms=len(arms))
+    except (api.Unsupported, OSError, ValueError, IndexError) as e:
+        api.broken('table', 'tree.collect_loops', PROPS, e)
